@@ -534,7 +534,9 @@ class WfCtx(object):
         for s in _body(fn):
             src = _src(s)
             if isinstance(s, ast.If) and _src(s.test) == 'states.is_paused_or_completed(self.wf_ex.state)':
-                if len(s.body) != 1 or not isinstance(s.body[0], ast.Return) or s.orelse or seen_expire:
+                # (before expire_all: on the copy loaded at the start; after it - repo patch 25 - on the
+                #  re-read copy: the `read` emitted for expire_all precedes it)
+                if len(s.body) != 1 or not isinstance(s.body[0], ast.Return) or s.orelse:
                     raise Refuse('check_and_complete: unexpected guard')
                 out.append(('retIf', ('isIn', ('obj', WF_FIELDS['state']),
                                       self.tabs['paused'] + self.tabs['completed'])))
@@ -757,7 +759,7 @@ ACT_SRC = 'mistral/engine/actions.py'
 ACTH_SRC = 'mistral/engine/action_handler.py'
 ENG_SRC = 'mistral/engine/default_engine.py'
 TAG_TASK = 2
-A_STATE, A_OUT = 0, 2      # script variables: the state the result maps to, the converted output
+A_STATE, A_PREV, A_OUT = 0, 1, 2   # script variables: the state the result maps to, prev_state, the converted output
 
 
 def action_complete(repo):
@@ -776,13 +778,33 @@ def action_complete(repo):
     chain = ('if result.is_success():\n    self.action_ex.state = states.SUCCESS\n'
              'elif result.is_cancel():\n    self.action_ex.state = states.CANCELLED\n'
              'else:\n    self.action_ex.state = states.ERROR')
-    want = ['assert self.action_ex', want_guard, 'prev_state = self.action_ex.state', chain,
-            'converted_result = self.action_desc.post_process_result(result)',
+    tail = ['converted_result = self.action_desc.post_process_result(result)',
             'self.action_ex.output = converted_result.to_dict()', 'self.action_ex.accepted = True',
             'self._log_result(prev_state, result)']
-    if srcs != want:
+    old_shape = ['assert self.action_ex', want_guard, 'prev_state = self.action_ex.state', chain] + tail
+    chain2 = ('if result.is_success():\n    state = states.SUCCESS\n'
+              'elif result.is_cancel():\n    state = states.CANCELLED\n'
+              'else:\n    state = states.ERROR')
+    cas_call = ('action_ex = db_api.update_action_execution_state(id=self.action_ex.id, cur_state=prev_state, '
+                'state=state)')
+    lost = ("if action_ex is None:\n    raise ValueError("
+            "'Action {} is already completed'.format(self.action_ex.id))")
+    new_shape = ['assert self.action_ex', want_guard, 'prev_state = self.action_ex.state', chain2, cas_call, lost,
+                 'self.action_ex = action_ex'] + tail
+    if srcs == old_shape:
+        with_cas = False
+    elif srcs == new_shape:
+        with_cas = True
+        api = _parse(repo, API_SRC)
+        check_update_on_match(api)
+        fn2 = _func(api, 'update_action_execution_state')
+        if [a.arg for a in fn2.args.args] != ['id', 'cur_state', 'state'] or [_src(x) for x in _body(fn2)] != [
+                'specimen = models.ActionExecution(id=id, state=cur_state)',
+                "return update_on_match(id, specimen, values={'state': state}, attempts=1)"]:
+            raise Refuse('db update_action_execution_state: unexpected shape')
+    else:
         raise Refuse('RegularAction.complete changed: %r' % [x[:60] for x in srcs])
-    for rel, names in ((ACT_SRC, None), (ACTH_SRC, None)):
+    for rel in (ACT_SRC, ACTH_SRC):
         with open(os.path.join(repo, rel)) as f:
             txt = f.read()
         for dev in ('acquire_lock', 'named_lock', 'update_on_match'):
@@ -811,6 +833,16 @@ def action_complete(repo):
                     kinds[st_.targets[0].id] = col.startswith('st.Json')
     if kinds != {'state': False, 'output': True, 'accepted': False}:
         raise Refuse('ActionExecution column kinds: %r' % kinds)
+    if with_cas:
+        # repo patch 26: the state is set by a compare-and-swap on the state read; no match -> raise
+        return [('read',),
+                ('raiseIf', ('isIn', ('obj', WF_FIELDS['state']), tabs['completed'])),
+                ('setVar', A_PREV, ('obj', WF_FIELDS['state'])),
+                ('cas', 0, [(WF_FIELDS['state'], ('var', A_PREV))], [(WF_FIELDS['state'], ('var', A_STATE))]),
+                ('raiseIf', ('notFlag', 0)),
+                ('assign', WF_FIELDS['output'], ('var', A_OUT), True),
+                ('assign', WF_FIELDS['accepted'], ('const', True), False),
+                ('emit', ('tt',), TAG_TASK)]
     return [('read',),
             ('raiseIf', ('isIn', ('obj', WF_FIELDS['state']), tabs['completed'])),
             ('assign', WF_FIELDS['state'], ('var', A_STATE), False),
